@@ -129,7 +129,9 @@ Definition valid (ev : event) : bool :=
   (* argument ref fields: a raw value must be an argument row's ID *)
   && forallb (fun r => forallb (known_or_not_raw (ids (e_arg ev))) (r_refs r)) (e_arg ev)
   (* CUD rows: a raw value must be the ID of some row of the event (argument rows included) *)
-  && forallb (fun r => forallb (known_or_not_raw (all_ids ev)) (row_vals r)) (e_creates ev ++ e_updates ev).
+  && forallb (fun r => forallb (known_or_not_raw (all_ids ev)) (row_vals r)) (e_creates ev ++ e_updates ev)
+  (* explicit IDs must not exceed MaxRecordID (proposed repair of F44; without it the bound is MaxUint64: no check) *)
+  && forallb (fun r => r_id r <=? c04_max_record_id) (e_arg ev ++ e_creates ev).
 
 (* ---- workspaces, histories ---- *)
 (* w_log: the IDs recovery feeds to UpdateOnSync, in its order: per logged event the new CUD ids, then the argument tree *)
